@@ -126,6 +126,24 @@ def _index_sketch(ctx: Ctx, rel: str, cname: str, *, query: str | None, rng: str
     ctx.ob("C20-3", "G9", mg, tot[0] if tot else None, len(tot) == 1, f"{cname}.merge adds the item totals")
 
 
+def bloom_no_false_negatives(ctx: Ctx, rule: str) -> None:
+    """BloomFilter.contains says False only on seeing an unset probe bit (shared with C14: the SSTable read path skips a table on False)."""
+    prog = ctx.prog
+    bf = prog.cls(BF, "BloomFilter")
+    ct = bf.methods["contains"]
+    cf = ctx.flow(ct)
+    rets = [(s, {k[:3] for k in cf.facts_at(node_of(cf.cfg, s))}) for s in walk_stmts(ct.node.body) if isinstance(s, ast.Return)]
+    neg = [s for s, fs in rets if isinstance(s.value, ast.Constant) and s.value.value is False]
+    pos = [s for s, fs in rets if isinstance(s.value, ast.Constant) and s.value.value is True]
+    allform = [s for s, fs in rets if isinstance(s.value, ast.Call) and path_of(s.value.func) == "all" and len(s.value.args) == 1 and isinstance(s.value.args[0], ast.GeneratorExp)
+               and path_of(getattr(s.value.args[0].elt, "func", None)) == "self._get_bit" and not s.value.args[0].generators[0].ifs]
+    if allform and len(rets) == 1:
+        ok = True
+    else:
+        ok = len(neg) == 1 and len(pos) == 1 and any(f[0] == "falsy" and f[1].startswith("self._get_bit(") for f in dict(rets)[neg[0]]) and pos[0] in ct.node.body
+    ctx.ob(rule, "G3", ct, neg[0] if neg else None, ok, "BloomFilter.contains answers False only on seeing an unset bit and True only after the whole range (no false negatives)")
+
+
 def rule_index_sketches(ctx: Ctx) -> None:
     prog = ctx.prog
 
@@ -151,18 +169,7 @@ def rule_index_sketches(ctx: Ctx) -> None:
     r = [s for s in walk_stmts(gb.node.body) if isinstance(s, ast.Return)]
     ok = same and len(w) == 1 and len(mask) == 1 and len(r) == 1 and unparse(r[0].value).replace(" ", "") == "bool(self._bits[word_idx]&1<<bit_pos)"
     ctx.ob("C20-1", "G4", sb, "set and get address the same bit", ok, "BloomFilter._set_bit and ._get_bit split a bit index into the same (word, position) and use the same mask")
-    ct = bf.methods["contains"]
-    cf = ctx.flow(ct)
-    rets = [(s, {k[:3] for k in cf.facts_at(node_of(cf.cfg, s))}) for s in walk_stmts(ct.node.body) if isinstance(s, ast.Return)]
-    neg = [s for s, fs in rets if isinstance(s.value, ast.Constant) and s.value.value is False]
-    pos = [s for s, fs in rets if isinstance(s.value, ast.Constant) and s.value.value is True]
-    allform = [s for s, fs in rets if isinstance(s.value, ast.Call) and path_of(s.value.func) == "all" and len(s.value.args) == 1 and isinstance(s.value.args[0], ast.GeneratorExp)
-               and path_of(getattr(s.value.args[0].elt, "func", None)) == "self._get_bit" and not s.value.args[0].generators[0].ifs]
-    if allform and len(rets) == 1:
-        ok = True
-    else:
-        ok = len(neg) == 1 and len(pos) == 1 and any(f[0] == "falsy" and f[1].startswith("self._get_bit(") for f in dict(rets)[neg[0]]) and pos[0] in ct.node.body
-    ctx.ob("C20-2", "G3", ct, neg[0] if neg else None, ok, "BloomFilter.contains answers False only on seeing an unset bit and True only after the whole range (no false negatives)")
+    bloom_no_false_negatives(ctx, "C20-2")
     mg = bf.methods["merge"]
     lp = [s for s in mg.node.body if isinstance(s, ast.For)]
     ok = len(lp) == 1 and unparse(lp[0].iter).replace(" ", "") == "range(len(self._bits))" and [unparse(s).replace(" ", "") for s in lp[0].body] == ["self._bits[i]|=other._bits[i]"]
